@@ -243,3 +243,68 @@ func MakeChanCap(v ssa.Value) (int64, bool) {
 	}
 	return ConstInt(mc.Size)
 }
+
+// RecvLoop is a loop that takes its items from a channel, however it is spelled (`for x := range ch`,
+// `for { x, ok := <-ch; if !ok { … } }`, a select-free receive at the top of a `for`).
+type RecvLoop struct {
+	Header *ssa.BasicBlock // the block holding the receive; it is on a cycle of the CFG
+	Recv   *ssa.UnOp
+	Body   *ssa.BasicBlock // the successor of Header from which Header is reached again (the iteration)
+}
+
+func blockReaches(from, to *ssa.BasicBlock) bool {
+	seen := map[*ssa.BasicBlock]bool{}
+	var walk func(b *ssa.BasicBlock) bool
+	walk = func(b *ssa.BasicBlock) bool {
+		if b == to {
+			return true
+		}
+		if seen[b] {
+			return false
+		}
+		seen[b] = true
+		for _, s := range b.Succs {
+			if walk(s) {
+				return true
+			}
+		}
+		return false
+	}
+	return walk(from)
+}
+
+// RecvLoops lists the channel-receiving loops of fn in block order.
+func RecvLoops(fn *ssa.Function) []RecvLoop {
+	var out []RecvLoop
+	for _, b := range fn.Blocks {
+		var recv *ssa.UnOp
+		for _, in := range b.Instrs {
+			if u, ok := in.(*ssa.UnOp); ok && u.Op == token.ARROW {
+				recv = u
+			}
+		}
+		if recv == nil {
+			continue
+		}
+		onCycle := false
+		var body *ssa.BasicBlock
+		for _, s := range b.Succs {
+			if blockReaches(s, b) {
+				onCycle = true
+				if body == nil {
+					body = s
+				}
+			}
+		}
+		if !onCycle {
+			continue
+		}
+		// when the receive's ok flag decides between iterating and leaving, the body is the iterating side
+		// even if both sides can come back (nested loops)
+		if len(b.Succs) == 2 && blockReaches(b.Succs[0], b) && blockReaches(b.Succs[1], b) {
+			body = b.Succs[0]
+		}
+		out = append(out, RecvLoop{Header: b, Recv: recv, Body: body})
+	}
+	return out
+}
